@@ -228,6 +228,38 @@ let predict_kind (f : string list) (obs : string) : string * string * bool =
        | None -> ("unknown-case", "BAD:unknown-case", false))
   | _ -> ("unknown-case", "BAD:unknown-case", false)
 
+(* sec cases: config sections (right and wrong ones) through the real hooks; reg cases: lookup *)
+let predict_sec (f : string list) (obs : string) : string * string * bool =
+  match f with
+  | ["sec"; form; tys; b; k; req; cfg; def] when String.length tys = 3 ->
+      let tk c = (match c with 's' -> TkName true | 'u' -> TkName false | 'n' -> TkNonString | _ -> TkAbsent) in
+      let sec = { sc_form = (match form with "S" -> FStrMap | "U" -> FUntypedMap | _ -> FNotMap);
+                  sc_types = [tk tys.[0]; tk tys.[1]; tk tys.[2]]; sc_badkey = (k = "1") } in
+      if section_ok_b sec then
+        predict_hook ["hook"; cfg; def; req; (if b = "1" then "7" else "-"); (if req = "N" then "1" else "2"); "-"] obs
+      else begin
+        (* the model agrees that such a section never reaches the registry *)
+        let sh = { sh_ret = RPlugin; sh_cfg = CPtr; sh_cerr = true; sh_perr = false; sh_def = DefVal; sh_rt = TImpl; sh_named = false } in
+        let model_err = (match create_by_section sh true (oracle_of [] [] []) { s_alloc = O; s_def = O; s_fill = O; s_ctor = O; s_prod = O } sec with Inl _ -> true | Inr _ -> false) in
+        let want = (if req = "N" then "new | . => err:config" else "fac . => err:config") in
+        let pred = (if model_err then want else "model-accepts-the-section") in
+        (pred, verdict (obs = want) "a wrong config section (not a map / key that is no string / no, several or a non-string type key / unknown name) did not reach the caller as the error result with nothing run", true)
+      end
+  | _ -> ("unknown-case", "BAD:unknown-case", false)
+
+let predict_reg (f : string list) (obs : string) : string * string * bool =
+  match f with
+  | ["reg"; "ptrtype"; _] -> ("regpanic", verdict (obs = "regpanic") "RegisterPtr accepted a value that is no pointer", true)
+  | ["reg"; what; req] ->
+      let content = (if what = "noname" then [(O, [O])] else []) in
+      let sh = { sh_ret = RPlugin; sh_cfg = CPtr; sh_cerr = true; sh_perr = false; sh_def = DefVal; sh_rt = TImpl; sh_named = false } in
+      let model_err = (not (registered_b content O (S O))) &&
+        (match new_by_name content O (S O) sh true (oracle_of [] [] []) { s_alloc = O; s_def = O; s_fill = O; s_ctor = O; s_prod = O } with Inl _ -> true | Inr _ -> false) in
+      let want = (if req = "N" then "new | . => err:lookup" else "fac . => err:lookup") in
+      ((if model_err then want else "model-finds-the-entry"),
+       verdict (obs = want) "creation by a (plugin type, name) that is not registered did not yield the error result with nothing run", true)
+  | _ -> ("unknown-case", "BAD:unknown-case", false)
+
 (* conc cases: products created concurrently.  The model (Model/RegistryConc.v) is run on a
    schedule that replays the order of default invocations read off the observation (every other
    step order gives the same products: C18_concurrent_products); the verdict is conc_b on the
@@ -477,6 +509,8 @@ let predict (c : string) (obs : string) : string * string * bool =
   if String.length c > 6 && String.sub c 0 6 = "hookn " then predict_hookn (split_blank c) obs else
   if String.length c > 5 && String.sub c 0 5 = "kind " then predict_kind (split_blank c) obs else
   if String.length c > 5 && String.sub c 0 5 = "conc " then predict_conc (split_blank c) obs else
+  if String.length c > 4 && String.sub c 0 4 = "sec " then predict_sec (split_blank c) obs else
+  if String.length c > 4 && String.sub c 0 4 = "reg " then predict_reg (split_blank c) obs else
   let (cs, o) = case_of (split_blank c) in
   let pred = s_obs (canon_obs (run_case cs o)) in
   let v =
